@@ -2639,9 +2639,13 @@ class TLSConnection(TLSRecordLayer):
         serverHello = ServerHello()
         # RFC 8446, section 4.1.3
         random = getRandomBytes(32)
-        if version == (3, 3) and settings.maxVersion > (3, 3):
+        # (the highest version enabled, see the version negotiation)
+        highest = max([i for i in settings.versions
+                       if settings.minVersion <= i <= settings.maxVersion] or
+                      [settings.maxVersion])
+        if version == (3, 3) and highest > (3, 3):
             random[-8:] = TLS_1_2_DOWNGRADE_SENTINEL
-        if version < (3, 3) and settings.maxVersion >= (3, 3):
+        if version < (3, 3) and highest >= (3, 3):
             random[-8:] = TLS_1_1_DOWNGRADE_SENTINEL
         serverHello.create(self.version, random, sessionID,
                            cipherSuite, CertificateType.x509, tackExt,
@@ -4223,9 +4227,14 @@ class TLSConnection(TLSRecordLayer):
                 serverHello = ServerHello()
                 # RFC 8446, section 4.1.3
                 random = getRandomBytes(32)
-                if version == (3, 3) and settings.maxVersion > (3, 3):
+                # (the highest version enabled, see the version negotiation)
+                highest = max([i for i in settings.versions
+                               if settings.minVersion <= i <=
+                               settings.maxVersion] or
+                              [settings.maxVersion])
+                if version == (3, 3) and highest > (3, 3):
                     random[-8:] = TLS_1_2_DOWNGRADE_SENTINEL
-                if version < (3, 3) and settings.maxVersion >= (3, 3):
+                if version < (3, 3) and highest >= (3, 3):
                     random[-8:] = TLS_1_1_DOWNGRADE_SENTINEL
                 serverHello.create(version, random,
                                    session.sessionID, session.cipherSuite,
